@@ -1,6 +1,6 @@
 //! BLTE chunk data structures and compression modes
 
-use binrw::io::{Read, Seek, Write};
+use binrw::io::{Read, Seek, SeekFrom, Write};
 use binrw::{BinRead, BinResult, BinWrite};
 
 use super::error::{BlteError, BlteResult};
@@ -78,8 +78,18 @@ impl BinRead for ChunkData {
             err: Box::new(BlteError::UnknownCompressionMode(mode_byte)),
         })?;
 
-        // Read remaining data
+        // Read remaining data. The size comes from the chunk table, so check
+        // it against what the input still holds before allocating the buffer.
         let data_size = compressed_size - 1;
+        let data_start = reader.stream_position()?;
+        let input_end = reader.seek(SeekFrom::End(0))?;
+        reader.seek(SeekFrom::Start(data_start))?;
+        if data_size as u64 > input_end.saturating_sub(data_start) {
+            return Err(binrw::Error::Io(std::io::Error::new(
+                std::io::ErrorKind::UnexpectedEof,
+                "chunk data extends past end of input",
+            )));
+        }
         let mut data = vec![0u8; data_size];
         reader.read_exact(&mut data)?;
 
